@@ -47,7 +47,8 @@ def notMember : Key := 1000000
 their position so that the view can name which `Any` is returned: the `Val` at position `p` with
 recomputed hash `h` is `2*(h*1024+p)+1`, an undecodable one is `2*p`. -/
 def crypto : Crypto :=
-  { digest := fun _ => 0
+  { Digest := Unit
+    digest := fun _ => ()
     recover := fun _ s => if s = 0 then none else some (s - 1)
     unmarshalAny := fun v => if v % 2 = 0 then none else some (v / 2)
     hashInner := fun x => some (x / 1024) }
